@@ -336,9 +336,9 @@ func init() {
 			"the writer and the reference decoder are validated against each other on every generated document (writer ∘ reference decoder = canon of the value)"},
 		Bound: func(tier string) string {
 			if tier == "thorough" {
-				return "levels 0,1,2,saturated, depth 2 (all shapes) x 2 variants; mocks x all single mutations"
+				return "levels 0,1,2,saturated, depth 2 (all shapes) x 2 variants; mocks x all single mutations; boundary-length strings in 11 string positions; one identity in every pair of item properties; every decode is followed by two unrelated decodes before the comparison"
 			}
-			return "levels 0,1,saturated, depth 2 (q shapes) x 2 variants; mocks x all single mutations"
+			return "levels 0,1,saturated, depth 2 (q shapes) x 2 variants; mocks x all single mutations; boundary-length strings in 11 string positions; one identity in every pair of item properties; every decode is followed by two unrelated decodes before the comparison"
 		},
 		DeadlineQuick: 6 * time.Minute, DeadlineThorough: 45 * time.Minute,
 		Run: c05Run,
@@ -352,6 +352,8 @@ func c05Judge(t *engine.T, label, topStruct string, docBytes []byte, want *canon
 		t.Fail("C05|"+label+"|"+topStruct+"|*|decode-error", "UnmarshalJSON failed: %v\ndoc: %s", err, docBytes)
 		return
 	}
+	// what was read must not depend on what the decoder does next: two unrelated decodes before the value is looked at
+	disturb(len(docBytes))
 	if want == nil {
 		if canon.Of(got, canon.JSON) != nil {
 			t.Fail("C05|"+label+"|"+topStruct+"|*|invented-value", "an empty document decoded to %s", canon.Of(got, canon.JSON))
@@ -384,6 +386,11 @@ func c05Judge(t *engine.T, label, topStruct string, docBytes []byte, want *canon
 	if err != nil {
 		t.Fail("C05|fixpoint|"+topStruct+"|*|re-decode-failed", "%v\n%s", err, e1)
 		return
+	}
+	disturb(len(e1))
+	if again := canon.Of(got, canon.JSON); !canon.Equal(gc, again) {
+		ds := canon.Diff(gc, again)
+		t.Fail("C05|decoded-value-not-stable|"+deltaKey(topStruct, ds[0]), "the decoded value changed while later documents were decoded: %s\ndoc: %s", ds[0], docBytes)
 	}
 	for _, d := range canon.Diff(gc, canon.Of(v2, canon.JSON)) {
 		t.Fail("C05|fixpoint|"+deltaKey(topStruct, d), "decode(encode(v)) differs from v: %s\nencoded: %s", d, e1)
